@@ -224,7 +224,6 @@ func VerifH_IncludeTargetKinds() {
 	verifrt.Reach("C08.kinds.err", je != nil)
 }
 
-
 // VerifH_IncludeQuoted (C01, C08): a quoted INCLUDE file name - including the
 // empty one - never faults; it is either rejected with a diagnostic at the
 // keyword or resolves below the directory of the including file.
